@@ -1124,7 +1124,15 @@ class NestedPipeFunc(PipeFunc):
             "resources": self.resources,
         }
         kwargs.update(update)
-        return NestedPipeFunc(**kwargs)  # type: ignore[arg-type]
+        f = NestedPipeFunc(**kwargs)  # type: ignore[arg-type]
+        if "pipefuncs" not in update and "renames" not in update:
+            # `defaults` and `bound` are not constructor arguments; keep what was
+            # set with `update_defaults`/`update_bound`/`update_renames`.
+            f._defaults = self._defaults.copy()
+            f._bound = self._bound.copy()
+            f._clear_internal_cache()
+            f._validate()
+        return f
 
     def _combine_mapspecs(self) -> MapSpec | None:
         mapspecs = [f.mapspec for f in self.pipeline.functions]
